@@ -138,7 +138,12 @@ def native_sweep(prop, known):
     todo = []
     for st in _ast.parse(src).body:
         if isinstance(st, _ast.Assign) and any(isinstance(t, _ast.Name) and t.id == 'THOROUGH' for t in st.targets):
-            todo = _ast.literal_eval(st.value)
+            try:
+                todo = _ast.literal_eval(st.value)
+            except ValueError:
+                ns = {}
+                exec(compile(_ast.Module(body=[st], type_ignores=[]), 'THOROUGH', 'exec'), ns)
+                todo = ns['THOROUGH']
     jobs = [(prop, f, i, k) for k, (f, i, _) in enumerate(todo)]
     if not jobs:
         return []
@@ -242,7 +247,10 @@ def main(argv=None):
         violations.append((ob, confirmed, path))
 
     native = []
-    if tier == 'thorough':
+    fallback = tier != 'thorough' and bool(undecided or unknown)
+    if tier == 'thorough' or fallback:
+        # thorough tier: always.  quick tier: only as the BOUNDED stand-in when some target could not be decided (code outside
+        # the verifier's reach, e.g. restructured loops): the real code is run on the finite input sets of replay/<prop>.py
         native = native_sweep(prop, known)
         for n in native:
             if n['violates'] and n.get('known') is None:
@@ -321,6 +329,10 @@ def main(argv=None):
         'samples': samples[:12],
         'extraction_drops': meta.get('extraction_drops', DEFAULT_DROPS),
     }
+    if fallback:
+        cov['bounded_native_sweeps'] = [{k: n.get(k) for k in ('func', 'inputs', 'violates', 'seconds', 'summary')} for n in native]
+        cov['bounded_native_note'] = ('bounded stand-in, run because %d target(s)/obligation(s) were undecided; never counted as proved'
+                                      % (len(undecided) + len(unknown)))
     if tier == 'thorough':
         cov['cross_checked_by_cvc5'] = {'agree': sum(1 for r in results for ob in r['obligations'] if (ob.get('cross_check') or {}).get('result') == 'unsat'),
                                         'cvc5_unknown': sum(1 for r in results for ob in r['obligations'] if (ob.get('cross_check') or {}).get('result') == 'unknown'),
